@@ -1,7 +1,10 @@
 //! C19 (first half): drives the public TimeoutLayer around a scripted inner service under
 //! tokio's paused clock.
 //!
-//! case line: <d ms> <p0 ms> <ti ms|-> <O<v>|E<e>> [<handover 0|1>] [B]
+//! case line: <d ms> <p0 ms> <ti ms|-> <O<v>|E<e>> [<handover 0|1>] [B | S<t1,t2,...>]
+//!   S: the driving task additionally polls the future at the instants t1,t2,... (spurious polls: sleeps polled next to
+//!   the future by the same task, so their expiry wakes the task and the future is polled again although neither the inner
+//!   future nor the deadline fired)
 //!   B: the same deadline through the public client Builder (`Client::builder().with_timeout(d)`) over the in-process duplex
 //!   transport against a server whose handler answers after ti (never for '-'); p0 and handover do not apply; the instant
 //!   at which the inner future was dropped is not observable there ('-')
@@ -138,6 +141,10 @@ fn run_case(line: &str) -> String {
     let v: u64 = f[3][1..].parse().unwrap();
     let res = if f[3].starts_with('O') { Ok(v) } else { Err(v) };
     let hand = f.get(4).map(|x| *x == "1").unwrap_or(false);
+    let spurious: Vec<u64> = match f.get(5) {
+        Some(x) if x.starts_with('S') => x[1..].split(',').filter(|y| !y.is_empty()).map(|y| y.parse().unwrap()).collect(),
+        _ => Vec::new(),
+    };
     let rt = tokio::runtime::Builder::new_current_thread().enable_time().start_paused(true).build().unwrap();
     let log = Rc::new(RefCell::new(Vec::new()));
     let log2 = log.clone();
@@ -159,9 +166,16 @@ fn run_case(line: &str) -> String {
                 early = Some(r);
             }
         }
+        // spurious polls: timers owned by the driving task, polled next to the future
+        let mut extra: Vec<Pin<Box<Sleep>>> =
+            spurious.iter().map(|t| Box::pin(tokio::time::sleep_until(base + Duration::from_millis(*t)))).collect();
+        let driven = std::future::poll_fn(move |cx| {
+            extra.retain_mut(|s| s.as_mut().poll(cx).is_pending());
+            fut.as_mut().poll(cx)
+        });
         let r = match early {
             Some(r) => Ok(r),
-            None => tokio::time::timeout(Duration::from_millis(50_000_000), fut).await,
+            None => tokio::time::timeout(Duration::from_millis(50_000_000), driven).await,
         };
         let at = (Instant::now() - base).as_millis();
         (r, at)
